@@ -370,15 +370,39 @@ def r5(ctx):
     if len(loops) != 1 or not isinstance(loops[0], ast.For):
         raise ShapeError("SSM.fill_window: one for-loop expected")
     lp = loops[0]
-    ok = isinstance(lp.iter, ast.Call) and norm(lp.iter.func) == "range" and len(lp.iter.args) == 1 and norm(lp.iter.args[0]) == "self.actualWindowSize"
-    ctx.check("SSM.fill_window:bound", ok, where(c.module, lp), "the burst must be limited to range(actualWindowSize) (found %s)" % norm(lp.iter))
+    # the segment numbers the loop asks for, computed for a grid of (first segment, window): start, start+1, .. start+window-1
     ix = norm(lp.target)
     gets = [x for x in calls_in(lp) if self_call(x) == "get_segment"]
     ev = Evaluator(prog, c.module, c)
-    ok = len(gets) == 1
-    if ok:
-        ok, cx = same_function(ev, subst_locals(f, gets[0].args[0]), grid(**{seq: [0, 1, 5, 255], ix: [0, 1, 2, 7]}), lambda e: e[seq] + e[ix])
-    ctx.check("SSM.fill_window:consecutive", ok, where(c.module, lp), "iteration k must send segment start+k")
+    ok_bound = ok_cons = len(gets) == 1 and isinstance(lp.target, ast.Name)
+    found = norm(lp.iter)
+    if ok_bound:
+        arg = subst_locals(f, gets[0].args[0])
+        for s0 in (0, 1, 5, 255):
+            for w in (1, 2, 4, 8, 127):
+                env = {seq: s0, "self.actualWindowSize": w}
+                try:
+                    its = list(ev.value(lp.iter, env))
+                    if len(its) > 4096:
+                        raise NotConst("too long")
+                    asked = []
+                    for v in its:
+                        e2 = dict(env)
+                        e2[ix] = v
+                        asked.append(ev.value(arg, e2))
+                except (NotConst, TypeError, ValueError) as ex:
+                    ok_bound = ok_cons = False
+                    found = "%s: %s" % (norm(lp.iter), ex)
+                    break
+                if len(asked) != w:
+                    ok_bound = False
+                    found = "%d passes for a window of %d" % (len(asked), w)
+                if asked[:w] != [s0 + k for k in range(min(w, len(asked)))]:
+                    ok_cons = False
+            if not ok_bound and not ok_cons:
+                break
+    ctx.check("SSM.fill_window:bound", ok_bound, where(c.module, lp), "the burst must be limited to actualWindowSize passes (found %s)" % found)
+    ctx.check("SSM.fill_window:consecutive", ok_cons, where(c.module, lp), "iteration k must send segment start+k")
     sends = [x for x in calls_in(lp) if norm(x.func) in ("self.ssmSAP.request", "self.request", "self.response")]
     ctx.check("SSM.fill_window:one-send-per-iteration", len(sends) == 1 and not facts_at(sends[0], stop=lp), where(c.module, lp), "each iteration sends exactly one segment unconditionally")
     # per pass through the loop body: the final segment (more-follows false) ends the burst and records sentAllSegments,
